@@ -34,7 +34,7 @@ def _spawn(prop, seed, tier, cases, out, variant, case_timeout, logprefix):
            '--cases', ','.join(map(str, cases)), '--out', out, '--variant', variant,
            '--case-timeout', str(case_timeout)]
     errf = open(out + '.stderr', 'ab')
-    return subprocess.Popen(cmd, cwd=VERIF, env=env, stdout=errf, stderr=errf)
+    return subprocess.Popen(cmd, cwd=os.path.dirname(out), env=env, stdout=errf, stderr=errf)  # EPANET drops en* temp files in cwd
 
 
 def _read_out(path):
